@@ -134,6 +134,9 @@ func (obj *SparseReal32Vector) SET(x *SparseReal32Vector) {
   }
 }
 func (obj *SparseReal32Vector) SLICE(i, j int) *SparseReal32Vector {
+  if i < 0 || j < i || j > obj.n {
+    panic("index out of bounds")
+  }
   r := nilSparseReal32Vector(j-i)
   for it := obj.indexIteratorFrom(i); it.Ok(); it.Next() {
     if it.Get() >= j {
